@@ -420,7 +420,7 @@ def read_sinex_sites(file):
         for line in f:
             if line[:8] == '-SITE/ID':
                 break
-            if go and line[:8] == '*CODE PT':
+            if go and line[:1] == '*':
                 pass
             elif go:
                 lines.append(line)
